@@ -87,6 +87,39 @@ class ContentFilterTree(tree.Tree):
         """
         return self.backing_tree.is_executable(path)
 
+    def is_special_path(self, path):
+        """Check if a path is special to the VCS of the backing tree.
+
+        Args:
+            path: Path to check.
+
+        Returns:
+            True if the backing tree considers the path special.
+        """
+        return self.backing_tree.is_special_path(path)
+
+    def get_symlink_target(self, path):
+        """Get the target of a symlink (symlinks are not filtered).
+
+        Args:
+            path: Path to the symlink.
+
+        Returns:
+            The target of the symlink in the backing tree.
+        """
+        return self.backing_tree.get_symlink_target(path)
+
+    def get_file_mtime(self, path):
+        """Get the modification time of a file in the backing tree.
+
+        Args:
+            path: Path to the file.
+
+        Returns:
+            The mtime recorded by the backing tree.
+        """
+        return self.backing_tree.get_file_mtime(path)
+
     def iter_entries_by_dir(self, specific_files=None, recurse_nested=False):
         """Iterate over entries in the tree by directory.
 
